@@ -64,12 +64,15 @@ claim("C14", "Theorems C14_step, C14 (any history), C14_idempotent on the modell
       "interpreter each on the real code." + COMMON, "DESIGN.md 0.2, 7 C14", "Interpreter-level state outside JASMConfig: fresh-process comparison only.")
 claim("C15", "Theorems C15_args, C15_route, C15_objdump_failure; binary route vs text route on objdump's own output for random multi-section "
       "objects, argv observed through a PATH shim." + COMMON, "DESIGN.md 0.2, 7 C15", "objdump is an uninterpreted parameter; process creation is runtime.")
-claim("C16", "Theorem C16 (corollary of C08_stream), C16_presentation, C16_other_lines, C16_results; paired listings with random presentation edits "
+claim("C16", "Theorem C16 (corollary of C08_stream), C16_presentation, C16_other_lines, C16_results, C16_pipeline (whole operation), C16_line_endings / C16_line_endings_binary "
+      "(Python's text layer is inside the model: a listing stored with CRLF line ends gives the same outcome of the whole operation); paired listings with random presentation edits "
       "on the real code." + COMMON, "DESIGN.md 0.2, 7 C16", "Over the grammar; listings without the byte column: finding D12.")
 claim("C17", "16 theorems C17_* (one per fault class: unreadable inputs, failing disassembler, wrongly-typed entries, empty group, $not arity, "
       "$deref without main_reg, negative/inverted times, undefined macro, error propagation); each fault injected into a found baseline on the real code." + COMMON,
       "DESIGN.md 0.2, 7 C17", "OS faults enter through World parameters; python -O is not used.")
-claim("C18", "Theorems C18_tag (inclusive bounds), C18_indirect, C18_nonbranch, C18_shape, C18_count_order, C18_no_option; per-instruction oracle at the "
+claim("C18", "Theorems C18_tag (inclusive bounds), C18_indirect, C18_nonbranch, C18_shape, C18_count_order, C18_no_option, C18_listing (the observer chain = map of the "
+      "property's rule tagSpec over the listing's instructions), C18_range_read / C18_range_loaded / C18_pipeline (whole operation: the range of the rule "
+      "document's config, read as hexadecimal, is the one applied; without the entry nothing is rewritten); per-instruction oracle at the "
       "range boundaries on the real code." + COMMON, "DESIGN.md 0.2, 7 C18")
 claim("C19", "Theorems C19 (no @ leaf, key or value survives a successful expansion), C19_reported, C19_named; every reference position x "
       "defined-before/after/undefined on the real code." + COMMON, "DESIGN.md 0.2, 7 C19")
